@@ -480,7 +480,7 @@ def run_long(case, ctx):
 
 def subs(tier):
     return [
-        Sub("history", run_history, strategy=history_case, quick=3200, thorough=60000, shards_quick=8, shards_thorough=16),
+        Sub("history", run_history, strategy=history_case, quick=3200, thorough=300000, shards_quick=8, shards_thorough=16),
         Sub("long_archive", run_long, strategy=long_case, quick=4, thorough=48, shards_quick=4, shards_thorough=16),
-        Sub("cadence", run_cadence, strategy=cadence_case, quick=1200, thorough=24000, shards_quick=8, shards_thorough=16),
+        Sub("cadence", run_cadence, strategy=cadence_case, quick=1200, thorough=120000, shards_quick=8, shards_thorough=16),
     ]
